@@ -37,9 +37,10 @@ FILES = {
 
 def common_rules(prog, prop):
     """-> (list of RuleResult, list of undecided-rule lines)"""
-    from . import oneshot, defaults
+    from . import oneshot, defaults, classattrs
     T = Attempts()
     files = FILES.get(prop)
     res = T.results(T(oneshot.rule, prog, prop, files),
-                    T(defaults.rule, prog, prop, files))
+                    T(defaults.rule, prog, prop, files),
+                    T(classattrs.rule, prog, prop, files))
     return res, T.extra().get('undecided_rules', [])
